@@ -12,6 +12,8 @@ import Driver.C14
 import Driver.C14c
 import Driver.C09
 import Driver.C07
+import Driver.C13pr
+import Driver.C01ext
 
 def main (args : List String) : IO UInt32 := do
   let stdin ← IO.getStdin
@@ -30,4 +32,6 @@ def main (args : List String) : IO UInt32 := do
   | ["c14c"] => C14cVal.main stdin
   | ["c09"] => C09Val.main stdin
   | ["c07"] => C07Val.main stdin
+  | ["c13pr"] => C13prVal.main stdin
+  | ["c01ext"] => C01extVal.main stdin
   | _ => do IO.eprintln "usage: midriver <trval|entry|...>"; return 2
